@@ -155,6 +155,18 @@ class C16(Property):
             trunc = "-" if rng.random() < 0.7 else str(rng.randrange(0, total + 2))
             trusted = 0 if rng.random() < 0.05 else 1
             out.append("im_parse %s %d %d %s %s %d" % (body.hex(), sigok, hashok, tail, trunc, trusted))
+        # --- length fields at their boundaries, for every part tag of both TLV codecs: declared length vs bytes present
+        BOUND = [0, 1, 2, 0x7f, 0x80, 0xff, 0x100, 0x101, 0x7fff, 0x8000, 0xff00, 0xfff0, 0xfff6, 0xfff7, 0xfff8, 0xfff9, 0xfffe, 0xffff]
+        for t in [1, 2, 3, 4, 5, 6, 7, 255]:
+            for L in BOUND:
+                presents = sorted(set([0, 1, min(L, 40)] + ([L, L + 3] if (L <= 0x101 or (thorough and L >= 0xfff0) or rng.random() < 0.08) else [])))
+                for present in presents:
+                    part = bytes([t, L >> 8, L & 0xff]) + rb(rng, present)
+                    for prefix in (b"", tlv(1, b"\x02") + tlv(2, rb(rng, 20))):
+                        body = prefix + part + b"\x00"
+                        out.append("im_parse %s 1 1 %s - 1" % (body.hex(), rng.choice(["-", "-", rb(rng, 30).hex()])))
+                    out.append("ni_dec " + (tlv(4, rb(rng, 16)) + part + b"\x00").hex())
+                    out.append("ni_dec " + (part + tlv(4, rb(rng, 16)) + b"\x00").hex())
         # --- rotation codec
         for _ in range(1200 * k):
             r = rng.random()
